@@ -1,4 +1,5 @@
 import TucanProofs.Lemmas.Canonical
+import TucanProofs.Lemmas.ClassesEdges
 import TucanProofs.Examples
 /-!
 # C12 — canonicalization only renames atoms; nothing is lost, added or mutated
@@ -76,6 +77,22 @@ theorem C12_canonicalize_renames (order : Graph → List Nat)
         have h1 := rel.nbrs a (hlab ▸ ha)
         have h2 := (hrn a (hpl ▸ ha)).trans (hpn a ha)
         exact h1.trans (h2.map _)
+
+/-- **The class is set, and carried.**  The `part` component of `C12_canonicalize_renames` is never absent: every
+atom of the refined graph `r` has a partition class `q`, and the canonical graph carries exactly that class on
+the renamed atom — `c.attrs? (σ a)` is the input's record with `part := some q` and nothing else changed. -/
+theorem C12_classes_carried (order : Graph → List Nat)
+    (hperm : ∀ r : Graph, r.WF → (order r).Perm r.labels)
+    (g c r : Graph) (k : Nat) (hw : g.WF) (hs : g.Simple)
+    (h : canonicalizeWith g order = .ok (c, r, k)) :
+    ∃ σ : Nat → Nat,
+      (∀ a ∈ g.labels, ∀ b ∈ g.labels, σ a = σ b → a = b) ∧
+      (∀ a ∈ g.labels, σ a ∈ c.labels) ∧
+      (∀ a ∈ g.labels, (c.nbrsD (σ a)).Perm ((g.nbrsD a).map fun e => (σ e.1, e.2))) ∧
+      ∀ a ∈ g.labels, ∃ (x : Atom) (q : Int), g.attrs? a = some x ∧
+        partOf? r a = some q ∧ partOf? c (σ a) = some q ∧
+        c.attrs? (σ a) = some { x with part := some q } :=
+  canonicalize_classes order hperm g c r k hw hs h
 
 /-- **Serialization only touches the scratch flag.**  The post-state of the serializer's argument is the
 argument with `explored := false` on every atom: labels, neighbour lists, bond records and every other
